@@ -111,7 +111,10 @@ impl JobManager {
             }
         }
 
-        let id = self.jobs.len() + 1;
+        // Number the job after the highest job number still in the table; jobs that already
+        // finished may have been removed, so the table's length says nothing about the
+        // numbers that are still in use.
+        let id = self.jobs.iter().map(|j| j.id).max().unwrap_or(0) + 1;
         job.id = id;
         job.annotation = JobAnnotation::Current;
         self.jobs.push(job);
